@@ -37,9 +37,10 @@ typedef struct {
     int quota;    /* tokens per consumer / producer */
     int nprod, ncons;
     int timed_pct;
+    int recursive; /* the user mutex is recursive */
 } cctx_t;
 
-static int c_far_deadline;
+static int c_far_deadline, c_recursive_rounds, c_recursive_relocks;
 static int c_cases, c_waits, c_timedwaits, c_timeouts, c_signals, c_broadcasts,
     c_success, c_rewaits, c_past_deadline, c_ext_waits, c_shapes, c_steps,
     c_fifo_head, c_fifo_other, c_inv_mutex, c_sig_empty, c_distinct;
@@ -107,6 +108,18 @@ static void consumer_body(actor_t *a)
             }
             vrt_actor_set(a->vid, VRT_A_RUNNING, "woken");
             hold_enter(c, a->idx, timed ? "timedwait-return" : "wait-return");
+            if (c->recursive) {
+                /* the waiter owns the (recursive) mutex again: it can lock it
+                 * once more */
+                int rl = ABT_mutex_trylock(c->m);
+                if (rl != ABT_SUCCESS)
+                    vrt_violation("cond:waiter-does-not-own-mutex", "actor %d(%s) returned from %s with a recursive mutex, but "
+                                  "a nested trylock by the same caller returned %d", a->idx, act_kind_name[a->kind],
+                                  timed ? "timedwait" : "wait", rl);
+                else
+                    VRT_ABT(ABT_mutex_unlock(c->m));
+                vrt_count(c_recursive_relocks, 1);
+            }
             if (a->kind == ACT_EXT)
                 vrt_count(c_ext_waits, 1);
             if (rc == ABT_SUCCESS) {
@@ -204,7 +217,17 @@ static void run_soup(vrt_rng *r, int round, int max_es, int quota)
     static cctx_t c;
     memset(&c, 0, sizeof(c));
     c.holder = -1;
-    VRT_ABT(ABT_mutex_create(&c.m));
+    c.recursive = (int)vrt_range(r, 3) == 0;
+    if (c.recursive) {
+        ABT_mutex_attr ma;
+        VRT_ABT(ABT_mutex_attr_create(&ma));
+        VRT_ABT(ABT_mutex_attr_set_recursive(ma, ABT_TRUE));
+        VRT_ABT(ABT_mutex_create_with_attr(ma, &c.m));
+        VRT_ABT(ABT_mutex_attr_free(&ma));
+        vrt_count(c_recursive_rounds, 1);
+    } else {
+        VRT_ABT(ABT_mutex_create(&c.m));
+    }
     int static_cond = (int)vrt_range(r, 2);
     static ABT_cond_memory cmem;
     static const ABT_cond_memory cinit = ABT_COND_INITIALIZER;
@@ -754,6 +777,8 @@ int main(int argc, char **argv)
     c_rewaits = vrt_counter("rewaits_token_taken_by_other");
     c_past_deadline = vrt_counter("deadline_in_past");
     c_far_deadline = vrt_counter("deadline_far_future_in_soup");
+    c_recursive_rounds = vrt_counter("soup_rounds_with_recursive_mutex");
+    c_recursive_relocks = vrt_counter("nested_relocks_after_wait_with_recursive_mutex");
     c_ext_waits = vrt_counter("waits_by_external");
     c_shapes = vrt_counter("shapes");
     c_steps = vrt_counter("script_steps");
